@@ -394,22 +394,22 @@ def optimal_path(
     else:
         weight = 'weight'
 
-    if method in ('dijkstra-exp', 'minmax-energy', 'simple'):
-        method = 'dijkstra'
+    if method not in ('dijkstra', 'bellman-ford', 'dijkstra-exp', 'minmax-energy', 'simple'):
+        raise ValueError(f'Unknown method {method}')
+
+    nx_method = 'bellman-ford' if method == 'bellman-ford' else 'dijkstra'
 
     start = tuple(start)
     stop = tuple(stop)
 
     optimal_path = nx.shortest_path(
-        F_graph, source=start, target=stop, weight=weight, method=method
+        F_graph, source=start, target=stop, weight=weight, method=nx_method
     )
 
     if method == 'minmax-energy':
         optimal_path = _optimal_path_minmax_energy(
             F_graph, start=start, stop=stop, optimal_path=optimal_path
         )
-    elif method not in ('dijkstra', 'bellman-ford', 'dijkstra-exp'):
-        raise ValueError(f'Unknown method {method}')
 
     path_energy = [F_graph.nodes[node]['energy'] for node in optimal_path]
     path = Pathway(sites=optimal_path, energy=path_energy)
@@ -442,27 +442,36 @@ def _optimal_path_minmax_energy(
         Optimal path on the graph between start and stop
     """
 
-    max_energy = max([F_graph.nodes[node]['energy'] for node in optimal_path])
-    minmax_energy = max_energy
+    def energy(node):
+        return F_graph.nodes[node]['energy']
+
     pruned_F_graph = F_graph.copy()
 
-    while minmax_energy <= max_energy:
+    while True:
         # Find the node of the path with the highest energy
-        max_node = max(optimal_path, key=lambda x: F_graph.nodes[x]['energy'])
-        # remove this node from the graph
-        pruned_F_graph.remove_node(max_node)
-        # recompute the path
-        pruned_path = nx.shortest_path(
-            pruned_F_graph,
-            source=start,
-            target=stop,
-            weight='weight',
+        max_node = max(optimal_path, key=energy)
+        # the barrier cannot be lowered if it is the start or stop site itself
+        if max_node in (start, stop):
+            break
+        # remove all nodes that are at least as high as this barrier
+        max_energy = energy(max_node)
+        pruned_F_graph.remove_nodes_from(
+            [
+                node
+                for node in list(pruned_F_graph.nodes)
+                if energy(node) >= max_energy and node not in (start, stop)
+            ]
         )
-        minmax_energy = max([F_graph.nodes[node]['energy'] for node in pruned_path])
-
-        if minmax_energy < max_energy:
-            optimal_path = pruned_path
-            max_energy = minmax_energy
+        # recompute the path, stop if the sites are no longer connected
+        try:
+            optimal_path = nx.shortest_path(
+                pruned_F_graph,
+                source=start,
+                target=stop,
+                weight='weight',
+            )
+        except nx.NetworkXNoPath:
+            break
 
     return optimal_path
 
